@@ -223,9 +223,17 @@ func (m *Manager) registerConnection(conn *Connection) {
 // handleDisconnect is called when a connection is closed.
 func (m *Manager) handleDisconnect(conn *Connection, err error) {
 	m.mu.Lock()
-	// Remove from peers map if this is still the active connection
-	if existing, ok := m.peers[conn.RemoteID]; ok && existing == conn {
-		delete(m.peers, conn.RemoteID)
+	// Remove from peers map if this is still the active connection. If another
+	// connection now holds the registration for this peer, this teardown is
+	// stale: the peer is still connected and must not be reported as gone
+	// (the agent cleans routes and relays up by peer ID).
+	stale := false
+	if existing, ok := m.peers[conn.RemoteID]; ok {
+		if existing == conn {
+			delete(m.peers, conn.RemoteID)
+		} else {
+			stale = true
+		}
 	}
 
 	// Find the peer info using the config address (original dial address).
@@ -239,7 +247,7 @@ func (m *Manager) handleDisconnect(conn *Connection, err error) {
 	m.mu.Unlock()
 
 	// Notify callback
-	if m.cfg.OnPeerDisconnect != nil {
+	if m.cfg.OnPeerDisconnect != nil && !stale {
 		m.cfg.OnPeerDisconnect(conn, err)
 	}
 
